@@ -14,7 +14,7 @@ MUTS = {
  'M1-client-no-mask-retest': ('features.go', '''					if !v.feature.allowed(s.state) {''', '''					if false {'''),
  'M2-server-no-mask-retest': ('features.go', ' || !data.feature.allowed(s.state) {', ' {'),
  'M3-ready-with-restart': ('features.go', 'if !list.req && rw == nil {', 'if !list.req {'),
- 'M4-server-no-negotiated-check': ('features.go', 'if !sent || negotiated || data.feature.Negotiate == nil', 'if !sent || data.feature.Negotiate == nil'),
+ 'M4-server-no-negotiated-check': ('features.go', 'if !sent || negotiated || data.feature.Negotiate == nil', 'if _ = negotiated; !sent || data.feature.Negotiate == nil'),
  'M5-mandatory-first': ('features.go', '''					if !v.req {
 						data = v
 						break
